@@ -7,6 +7,7 @@ of their declared types (c19_groups.value_for: configuration beside the object, 
 accepted object through the zero-argument methods of its own class (consumer_calls), the hand-written DESIGN list
 (specific_consumers) AND this matrix; a foreign exception class or a hang on an accepted object is the finding
 `<parser>-><consumer>:<Exception>`; calls are counted per consumer in evidence (class_histogram["consumers.matrix"]).
+An index parameter beside the object (vin_i, i, index …) takes 0, len, -1 and 2^31: a refusal must be a library exception.
 Consumers that sign, mutate their argument in place, or leave the process are not consumers (SKIP).
 """
 from __future__ import annotations
@@ -27,6 +28,7 @@ _MATRIX = None
 _SEQ = re.compile(r"^(Sequence|Iterable|list)\[([A-Za-z_][A-Za-z0-9_.]*)\]$")
 _NOT_TYPES = ("Octets", "String", "None", "Sequence", "Iterable", "Mapping", "Any", "BinaryData", "Integer", "Callable", "Literal", "HashF",
               "Point", "Curve")
+_IDX = object()
 INDEX_NAMES = ("i", "vin_i", "index", "input_index", "vout_i")
 
 
@@ -106,7 +108,7 @@ def matrix_consumers(obj, rng=None, limit=40):
         if (q, pname) in seen or (inspect.isclass(declared) and not isinstance(obj, declared)):
             continue
         seen.add((q, pname))
-        args, kwargs, ok = [], {}, True
+        args, kwargs, ok, idx_values = [], {}, True, None
         for p in sig.parameters.values():
             if p.kind in (p.VAR_POSITIONAL, p.VAR_KEYWORD):
                 continue
@@ -116,12 +118,12 @@ def matrix_consumers(obj, rng=None, limit=40):
             elif p.default is not inspect.Parameter.empty:
                 continue
             elif p.name in INDEX_NAMES or p.name.endswith("_index"):
-                # ASSUMPTION (configuration integers are plausible): an index beside the object is IN RANGE, else no call
+                # an index beside the object: in range mostly, but also one past the end, negative and huge (a refusal must be
+                # a library exception: /repo 5e9c2ba2 made psbt.ecdsa_sig_hash / taproot_sig_hash refuse instead of IndexError)
                 seq = getattr(obj, "inputs", None) if hasattr(obj, "inputs") else getattr(obj, "vin", None)
-                if not seq:
-                    ok = False
-                    break
-                v = 0
+                n_ = len(seq) if seq is not None else 0
+                v = _IDX
+                idx_values = [0, n_, -1, 2**31] if n_ else [0, -1]
             else:
                 spec = Gr.value_for(Gr._ann(p), rng, False, p.name)
                 if spec is Gr.NOVAL:
@@ -136,6 +138,12 @@ def matrix_consumers(obj, rng=None, limit=40):
                 args.append(v)
             else:
                 kwargs[p.name] = v
-        if ok:
+        if ok and idx_values is None:
             out.append((f"{q.replace('btclib.', '')}({pname})", (lambda fn=fn, a=args, k=kwargs: fn(*a, **k))))
+        elif ok:
+            for iv in idx_values:       # every index value, deterministically (a replay makes the same calls)
+                a2 = [iv if x is _IDX else x for x in args]
+                k2 = {kk: (iv if x is _IDX else x) for kk, x in kwargs.items()}
+                out.append((f"{q.replace('btclib.', '')}({pname})" if iv == 0 else f"{q.replace('btclib.', '')}({pname})[i={iv}]",
+                            (lambda fn=fn, a=a2, k=k2: fn(*a, **k))))
     return out[:limit]
